@@ -35,7 +35,7 @@ ASSUMPTIONS = [
 ]
 REQUIRED_CLAUSES = ["failure-reaches-race-control", "never-success", "no-results-stored", "no-summary-printed", "bounded-time", "baseline-succeeds"]
 KINDS = ["http-abort", "http-400-abort", "refused-continue", "params-raise", "partition-raise", "runner-keyerror", "runner-exception", "store-raises",
-         "prepare-task-raises", "prepare-handler-raises", "worker-dies", "cancel", "timeout-abort", "http-status-abort", "rc-store-raises"]
+         "prepare-task-raises", "prepare-handler-raises", "worker-dies", "cancel", "timeout-abort", "http-status-abort", "rc-store-raises", "store-down"]
 REQUIRED_FEATURES = {"kind:" + k: 2 for k in KINDS}
 REQUIRED_FEATURES["driver-profiling-on"] = 5
 BUDGET = {"quick": {"cases": 1500, "seconds": 34}, "thorough": {"cases": 40000, "seconds": 700}}
@@ -182,6 +182,37 @@ class Injector:
 
             metrics.InMemoryMetricsStore._add = _add
             self._undo = lambda: setattr(metrics.InMemoryMetricsStore, "_add", orig)
+        elif kind == "store-down":
+            # the driver's metrics store goes down and stays down (a remote Elasticsearch store that became unreachable): from the n-th record
+            # on every write fails, and so does the flush that closing the store implies
+            orig_add, orig_flush = metrics.InMemoryMetricsStore._add, metrics.InMemoryMetricsStore.flush
+            count = [0]
+
+            def in_driver():
+                return k.current_proc is not None and k.current_proc.cls.__name__ == "DriverActor"
+
+            def _add(store, doc):
+                if in_driver() and doc.get("name") in ("latency", "service_time", "processing_time", "throughput"):
+                    count[0] += 1
+                    if count[0] >= f["nth"]:
+                        if me.fired_at is None:
+                            me.fired_at = k.clock.now
+                            me.detail = k.current_msg
+                        raise IOError("verif: metrics store is down")
+                return orig_add(store, doc)
+
+            def flush(store, refresh=True):
+                if in_driver() and me.fired_at is not None:
+                    raise IOError("verif: metrics store is down (flush)")
+                return orig_flush(store, refresh)
+
+            metrics.InMemoryMetricsStore._add = _add
+            metrics.InMemoryMetricsStore.flush = flush
+
+            def undo_down():
+                metrics.InMemoryMetricsStore._add, metrics.InMemoryMetricsStore.flush = orig_add, orig_flush
+
+            self._undo = undo_down
         elif kind == "rc-store-raises":
             # race control's own metrics store fails while it takes over the samples of a finished task / of the whole benchmark, or while the
             # final results are calculated. The benchmark itself may be over by then - the race is not: it must still end as failed.
@@ -375,6 +406,8 @@ def points_for(case, base_tr, rng, exhaustive):
     n_store = 4 * len(base_tr.rec.samples)
     for nth in (range(1, n_store + 1, 3) if exhaustive else [rng.randint(1, max(1, n_store))]):
         faults.append({"kind": "store-raises", "nth": nth})
+    for nth in (range(1, n_store + 1, 7) if exhaustive else [rng.randint(1, max(1, n_store))]):
+        faults.append({"kind": "store-down", "nth": nth})
     for call in ("bulk_add@TaskFinished", "bulk_add@BenchmarkComplete", "flush@BenchmarkComplete", "calculate_results@BenchmarkComplete"):
         if exhaustive or rng.random() < 0.3:
             faults.append({"kind": "rc-store-raises", "call": call})
